@@ -54,7 +54,7 @@ AeadOps(fields) == { <<f[2], f[3], f[4], f[5]>> : f \in { fields[i] : i \in 1..L
 (* old = state before the call, part = partial state at the failure point *)
 Rollback(old, part) ==
   IF FullRollback
-  THEN [old EXCEPT !.rng = part.rng]                 \* RngAdvanceOnFailedWrite: environment, not session
+  THEN [old EXCEPT !.rng = part.rng, !.kgen = part.kgen, !.kenc = part.kenc]   \* RngAdvanceOnFailedWrite: environment, not session
   ELSE [part EXCEPT !.ss.h = old.ss.h, !.ss.ck = old.ss.ck, !.ss.hk = old.ss.hk,
                     !.pos = old.pos, !.turn = old.turn]
 
